@@ -54,7 +54,7 @@ def limiterOk (l : Limiter) (ev : ReadEv) : Bool :=
 
 /-- Why a copy loop ended. -/
 inductive Stop where
-  | readErr | writeErr | shortWrite | limiter | eof
+  | readErr | writeErr | shortWrite | limiter | ctx | eof
 deriving DecidableEq, Repr
 
 /-- State of one `CopyWithControl` call. -/
@@ -108,15 +108,25 @@ def iter (l : Limiter) (ev : ReadEv) (ws : List WriteEv) (st : St) : IterRes :=
       | some .fatal => ⟨st', ws', some .readErr⟩
       | _ => ⟨st', ws', none⟩
 
-/-- `CopyWithControl`: the read script is followed by EOF.  Returns the final
-state (after the closing `counter.Add(batchCounter)`), the reason the loop
-ended and the unread rest of the read script. -/
-def copy (l : Limiter) : List ReadEv → List WriteEv → St → St × Stop × List ReadEv
-  | [], _, st => (flush st, .eof, [])
-  | ev :: rs, ws, st =>
-    match (iter l ev ws st).stop with
-    | some s => (flush (iter l ev ws st).st, s, rs)
-    | none => copy l rs (iter l ev ws st).ws (iter l ev ws st).st
+/-- `CopyWithControl`: the read script is followed by EOF.  `chk` is `checkCounter`, `canc` says
+whether the bridge context has been cancelled so far (the cancellation of an event takes effect
+while its `Read` is in progress): every `ContextCheckInterval` iterations the loop looks at the
+context and, if it is done, adds the pending batch to the counter and returns.  Returns the final
+state (after the closing `counter.Add(batchCounter)`), the reason the loop ended and the unread
+rest of the read script. -/
+def copyFrom (l : Limiter) : Nat → Bool → List ReadEv → List WriteEv → St → St × Stop × List ReadEv
+  | _, _, [], _, st => (flush st, .eof, [])
+  | chk, canc, ev :: rs, ws, st =>
+    if chk + 1 ≥ cloudconst.ContextCheckInterval ∧ canc then (flush st, .ctx, ev :: rs)
+    else
+      match (iter l ev ws st).stop with
+      | some s => (flush (iter l ev ws st).st, s, rs)
+      | none =>
+        copyFrom l (if chk + 1 ≥ cloudconst.ContextCheckInterval then 0 else chk + 1) (canc || ev.cancelled)
+          rs (iter l ev ws st).ws (iter l ev ws st).st
+
+def copy (l : Limiter) (rs : List ReadEv) (ws : List WriteEv) (st : St) : St × Stop × List ReadEv :=
+  copyFrom l 0 false rs ws st
 
 /-- All bytes a read script carries. -/
 def allData (rs : List ReadEv) : Bytes := (rs.map (·.data)).flatten
